@@ -586,4 +586,118 @@ def posedDistance2 (distance : V2 K → Bool → K) (m : Iso2 K) (pt : V2 K) (so
 def posedContains3 (contains : V3 K → Bool) (m : Iso3 K) (pt : V3 K) : Bool := contains (m.invAct pt)
 def posedContains2 (contains : V2 K → Bool) (m : Iso2 K) (pt : V2 K) : Bool := contains (m.invAct pt)
 
+/-! ## Tetrahedron (`point_tetrahedron.rs`) -/
+
+structure Tetrahedron (K : Type) where
+  a : V3 K
+  b : V3 K
+  c : V3 K
+  d : V3 K
+
+/-- `TetrahedronPointLocation` -/
+inductive TetLoc (K : Type) where
+  | vertex (i : Nat)
+  | edge (i : Nat) (b0 b1 : K)
+  | face (i : Nat) (b0 b1 b2 : K)
+  | solid
+
+/-- result of the projection, or the code's `unimplemented!()` / `assert!` panic -/
+inductive TetRes (K : Type) where
+  | ok (p : PP3 K) (l : TetLoc K)
+  | panic
+
+/-- `check_edge`: `(dabc, dabd, Some(result))` -/
+def tetCheckEdge (i : Nat) (a nabc nabd ap ab : V3 K) (ap_ab bp_ab : K) : K × K × Option (PP3 K × TetLoc K) :=
+  let ab_ab := ap_ab - bp_ab
+  let ap_x_ab := ap.cross ab
+  let dabc := ap_x_ab.dot nabc
+  let dabd := ap_x_ab.dot nabd
+  if !(neq ab_ab 0) && decide (0 ≤ dabc) && decide (0 ≤ dabd) && decide (0 ≤ ap_ab) && decide (ap_ab ≤ ab_ab) then
+    let u := ap_ab / ab_ab
+    (dabc, dabd, some (⟨false, a.add (ab.smul u)⟩, TetLoc.edge i (1 - u) u))
+  else (dabc, dabd, none)
+
+/-- `check_face`: `none` = not this face (including a failed `try_normalize`); `some panic` = the `assert!(denom != 0.0)` -/
+def tetCheckFace (i : Nat) (a b c ap bp cp ab ac ad : V3 K) (dabc dbca dacb : K) : Option (TetRes K) :=
+  if decide (dabc < 0) && decide (dbca < 0) && decide (dacb < 0) then
+    let n := ab.cross ac
+    if n.dot ad * n.dot ap < 0 then
+      let nrm := n.norm
+      if nrm ≤ eps then none
+      else
+        let normal := n.sdiv nrm
+        let vc := normal.dot (ap.cross bp)
+        let va := normal.dot (bp.cross cp)
+        let vb := normal.dot (cp.cross ap)
+        let denom := va + vb + vc
+        if neq denom 0 then some TetRes.panic
+        else
+          let inv := 1 / denom
+          let b0 := va * inv; let b1 := vb * inv; let b2 := vc * inv
+          some (TetRes.ok ⟨false, ((a.smul b0).add (b.smul b1)).add (c.smul b2)⟩ (TetLoc.face i b0 b1 b2))
+    else none
+  else none
+
+/-- `Tetrahedron::project_local_point_and_get_location` -/
+def Tetrahedron.projectLoc (s : Tetrahedron K) (pt : V3 K) (solid : Bool) : TetRes K :=
+  let ab := s.b.sub s.a; let ac := s.c.sub s.a; let ad := s.d.sub s.a; let ap := pt.sub s.a
+  let ap_ab := ap.dot ab; let ap_ac := ap.dot ac; let ap_ad := ap.dot ad
+  if decide (ap_ab ≤ 0) && decide (ap_ac ≤ 0) && decide (ap_ad ≤ 0) then TetRes.ok ⟨false, s.a⟩ (TetLoc.vertex 0) else
+  let bc := s.c.sub s.b; let bd := s.d.sub s.b; let bp := pt.sub s.b
+  let bp_bc := bp.dot bc; let bp_bd := bp.dot bd; let bp_ab := bp.dot ab
+  if decide (bp_bc ≤ 0) && decide (bp_bd ≤ 0) && decide (0 ≤ bp_ab) then TetRes.ok ⟨false, s.b⟩ (TetLoc.vertex 1) else
+  let cd := s.d.sub s.c; let cp := pt.sub s.c
+  let cp_ac := cp.dot ac; let cp_bc := cp.dot bc; let cp_cd := cp.dot cd
+  if decide (cp_cd ≤ 0) && decide (0 ≤ cp_bc) && decide (0 ≤ cp_ac) then TetRes.ok ⟨false, s.c⟩ (TetLoc.vertex 2) else
+  let dp := pt.sub s.d
+  let dp_cd := dp.dot cd; let dp_bd := dp.dot bd; let dp_ad := dp.dot ad
+  if decide (0 ≤ dp_ad) && decide (0 ≤ dp_bd) && decide (0 ≤ dp_cd) then TetRes.ok ⟨false, s.d⟩ (TetLoc.vertex 3) else
+  let nabc := ab.cross ac
+  let nabd := ab.cross ad
+  let e0 := tetCheckEdge 0 s.a nabc nabd ap ab ap_ab bp_ab
+  match e0.2.2 with
+  | some r => TetRes.ok r.1 r.2
+  | none =>
+  let dabc := e0.1; let dabd := e0.2.1
+  let nacd := ac.cross ad
+  let e1 := tetCheckEdge 1 s.a nacd nabc.neg ap ac ap_ac cp_ac
+  match e1.2.2 with
+  | some r => TetRes.ok r.1 r.2
+  | none =>
+  let dacd := e1.1; let dacb := e1.2.1
+  let e2 := tetCheckEdge 2 s.a nabd.neg nacd.neg ap ad ap_ad dp_ad
+  match e2.2.2 with
+  | some r => TetRes.ok r.1 r.2
+  | none =>
+  let dadb := e2.1; let dadc := e2.2.1
+  let nbcd := bc.cross bd
+  let e3 := tetCheckEdge 3 s.b nabc nbcd bp bc bp_bc cp_bc
+  match e3.2.2 with
+  | some r => TetRes.ok r.1 r.2
+  | none =>
+  let dbca := e3.1; let dbcd := e3.2.1
+  let e4 := tetCheckEdge 4 s.b nbcd.neg nabd bp bd bp_bd dp_bd
+  match e4.2.2 with
+  | some r => TetRes.ok r.1 r.2
+  | none =>
+  let dbdc := e4.1; let dbda := e4.2.1
+  let e5 := tetCheckEdge 5 s.c nacd nbcd cp cd cp_cd dp_cd
+  match e5.2.2 with
+  | some r => TetRes.ok r.1 r.2
+  | none =>
+  let dcda := e5.1; let dcdb := e5.2.1
+  match tetCheckFace 0 s.a s.b s.c ap bp cp ab ac ad dabc dbca dacb with
+  | some r => r
+  | none =>
+  match tetCheckFace 1 s.a s.b s.d ap bp dp ab ad ac dadb dabd dbda with
+  | some r => r
+  | none =>
+  match tetCheckFace 2 s.a s.c s.d ap cp dp ac ad ab dacd dcda dadc with
+  | some r => r
+  | none =>
+  match tetCheckFace 3 s.b s.c s.d bp cp dp bc bd ab.neg dbcd dcdb dbdc with
+  | some r => r
+  | none =>
+  if !solid then TetRes.panic else TetRes.ok ⟨true, pt⟩ TetLoc.solid
+
 end Model
